@@ -420,6 +420,27 @@ def check(prog, rep):
                     ok = True
         rep.ob("R12.4", fi.name, ok, "the closure's default argument is the Parameter node itself" if ok else "the Parameter arm does not bind the Parameter object into the closure", loc=f"{fi.module.rel}:{a.lineno}", detail="binds-object")
 
+    # ------------------------------------------------------------------ R12.5 (b): set() stores what it is given
+    # An update may be skipped when the new value IS the old one; skipping it when it is only CLOSE to the old one
+    # (np.isclose / allclose / math.isclose, whose default tolerances are rtol 1e-5, atol 1e-8) drops small updates:
+    # later evaluations and solves keep the previous value.
+    n_set = 0
+    for cname in ("Parameter", "VectorParameter", "MatrixParameter"):
+        if cname not in prog.classes:
+            continue
+        for mname, m_ in prog.cls(cname).methods.items():
+            if not (mname == "set" or mname.startswith("set_") or mname == "__setitem__"):
+                continue
+            n_set += 1
+            tol = [c_ for c_ in ast.walk(m_.node) if isinstance(c_, ast.Call) and (dotted(c_.func) or "").split(".")[-1] in ("isclose", "allclose")]
+            # a symmetry check of a matrix against its own transpose is not a comparison with the old value
+            tol = [c_ for c_ in tol if not any(src(a_).endswith(".T") for a_ in c_.args)]
+            if tol:
+                rep.ob("R12.5", f"{cname}.{mname}", False,
+                       f"`{src(tol[0])[:60]}` decides which entries count as changed: an update that differs from the stored value by less than the tolerance (default rtol 1e-5, atol 1e-8) is not written, so the parameter keeps its old value "
+                       f"and every later evaluation / solve ignores the update",
+                       loc=f"{m_.module.rel}:{tol[0].lineno}", detail="set-within-tolerance", robust=True)
+    rep.saw("parameter setters scanned", n_set)
     # ------------------------------------------------------------------ R12.5
     writers = []
     for fi in prog.functions.values():
